@@ -44,6 +44,7 @@ This file is part of libECBUFR.
 #include "bufr_i18n.h"
 
 static uint64_t    bufr_value2bits           ( BufrDescriptor *code );
+static uint64_t    bufr_wide_int2bits        ( BufrDescriptor *bd, int64_t ival );
 static void        bufr_empty_datasubsets    ( BUFR_Dataset *dts );
 static void        bufr_free_datasubsets     ( BUFR_Dataset *dts );
 static void        bufr_free_datasubset      ( DataSubset *subset );
@@ -1499,6 +1500,22 @@ DataSubset *bufr_get_datasubset( BUFR_Dataset *dts, int pos )
  * @author Vanh Souvanlasy
  * @ingroup internal
  */
+/*
+ * raw value of an unscaled integer element wider than 32 bits that has a reference value:
+ * exact integer arithmetic (a double cannot hold every integer above 2^53, and
+ * bufr_cvt_dval_to_i64 is written for widths up to 32 bits); out of range gives missing
+ */
+static uint64_t bufr_wide_int2bits( BufrDescriptor *bd, int64_t ival )
+   {
+   uint64_t  missing = bufr_missing_ivalue( bd->encoding.nbits );
+   int64_t   raw;
+
+   if (ival == -1) return missing;
+   raw = ival - bd->encoding.reference;
+   if ((raw < 0)||((uint64_t)raw >= missing)) return missing;
+   return (uint64_t)raw;
+   }
+
 static uint64_t bufr_value2bits( BufrDescriptor *bd )
    {
    double          dval;
@@ -1534,8 +1551,10 @@ static uint64_t bufr_value2bits( BufrDescriptor *bd )
  * FAILSAFE: INT type may have reference or scale 
 
 */
-               if ((bd->encoding.reference != 0)||(bd->encoding.scale != 0))
+               if (bd->encoding.scale != 0)
                   ival = bufr_cvt_dval_to_i64( bd->descriptor, &(bd->encoding), (double)ival );
+               else if (bd->encoding.reference != 0)
+                  ival = bufr_wide_int2bits( bd, ival );
                }
             else
                {
@@ -1771,10 +1790,14 @@ static void bufr_put_desc_value ( BUFR_Message *bufr, BufrDescriptor *bd )
                   sprintf( errmsg, _("%lld"), (long long)i64val );
                   bufr_print_debug( errmsg );
                   }
-               if ((bd->encoding.reference != 0)||(bd->encoding.scale != 0))
+               if (bd->encoding.scale != 0)
                   {
 /* FAILSAFE: INT type may have reference or scale */
                   ui64val = bufr_cvt_dval_to_i64( bd->descriptor, &(bd->encoding), (double)i64val );
+                  }
+               else if (bd->encoding.reference != 0)
+                  {
+                  ui64val = bufr_wide_int2bits( bd, i64val );
                   }
                else
                   {
